@@ -1148,6 +1148,11 @@ Qed.
 Lemma cie_asz_sp eh be c d i : CfiSpec.cie_asz (cie_sp eh be c) (cie_rec_of c d i) = c_asize c.
 Proof. unfold CfiSpec.cie_asz, cie_sp, cie_rec_of. cbn. destruct (negb eh && (c_version c =? 4)); reflexivity. Qed.
 
+Lemma addr_const_of_write be a size bs : write_address be a size = Ok bs -> exists v, a = AConst v.
+Proof. destruct a; [eauto|discriminate]. Qed.
+Lemma addr_const_of_ptr be pos a e size bs : write_eh_pointer be pos a e size = Ok bs -> exists v, a = AConst v.
+Proof. destruct a; [eauto|discriminate]. Qed.
+
 Lemma cie_write_enc dbg be eh pos (c : CfiWr.cie) bs :
   cie_wf c = true -> pos + len bs < 18446744073709551616 ->
   cie_write dbg be eh pos c = Ok bs ->
@@ -1156,7 +1161,18 @@ Lemma cie_write_enc dbg be eh pos (c : CfiWr.cie) bs :
     bs = CfiSpec.enc_cie (cie_sp eh be c) (cie_rec_of c (cie_data_pos eh be pos c) (insns ++ pad)) /\
     CfiRd.nlen (RdE.cie_body (CfiRd.mkcfg eh be (c_asize c) (CfiRd.mksb (Some 0) None None))
                              (cie_rec_of c (cie_data_pos eh be pos c) (insns ++ pad)))
-    < (if c_fmt64 c then 2 ^ 64 else 4294967280).
+    < (if c_fmt64 c then 2 ^ 64 else 4294967280) /\
+    CfiSpec.blen (RdE.items_data (c_asize c) be (aug_items_of c (cie_data_pos eh be pos c))) < 128 /\
+    (c_version c = 1 \/ c_version c = 3 \/ c_version c = 4) /\
+    (c_version c = 1 -> c_ra c < 256) /\
+    match c_pers c with
+    | Some (e, a) => exists v, a = AConst v /\
+        (CfiWr.pe_application e = 0 \/ CfiWr.pe_application e = 16) /\
+        CfiSpec.fmt_valid (CfiWr.pe_format e) = true /\
+        CfiSpec.value_fits (CfiWr.pe_format e) (c_asize c)
+          (ptr_raw (cie_data_pos eh be pos c + N.of_nat (length (lsda_items c)) + 1) e v) = true
+    | None => True
+    end.
 Proof.
   intros Hwf Hfit H.
   pose proof (cie_write_ok_asz _ _ _ _ _ _ H) as Hasz.
@@ -1215,7 +1231,16 @@ Proof.
     unfold CfiSpec.cie_id, id_size_of, sp, cie_sp. cbn [CfiSpec.s_eh CfiSpec.s_be]. unfold len.
     destruct eh; [|destruct (c_fmt64 c)]; rewrite CfiRdBase.un_bytes_length; reflexivity. }
   (* the augmentation data *)
-  assert (Haugp : augdata = RdE.cie_augpart sp cr).
+  assert (Haugp : augdata = RdE.cie_augpart sp cr /\
+                  CfiSpec.blen (RdE.items_data (c_asize c) be (aug_items_of c dpos)) < 128 /\
+                  match c_pers c with
+                  | Some (e, a) => exists v, a = AConst v /\
+                      (CfiWr.pe_application e = 0 \/ CfiWr.pe_application e = 16) /\
+                      CfiSpec.fmt_valid (CfiWr.pe_format e) = true /\
+                      CfiSpec.value_fits (CfiWr.pe_format e) (c_asize c)
+                        (ptr_raw (dpos + N.of_nat (length (lsda_items c)) + 1) e v) = true
+                  | None => True
+                  end).
   { unfold RdE.cie_augpart, cr, sp. cbv zeta. rewrite cie_asz_sp. unfold RdE.items_data.
     cbn [cie_rec_of CfiSpec.c_z CfiSpec.c_items]. unfold cie_sp. cbn [CfiSpec.s_be].
     destruct (has_augmentation c) eqn:Ea.
@@ -1240,8 +1265,20 @@ Proof.
       assert (Hsmall : CfiSpec.blen (concat (map (CfiSpec.item_data (c_asize c) be) (aug_items_of c dpos))) < 128).
       { rewrite <- (aug_data_eq be c dpos pb Hpb Hpa). unfold CfiSpec.blen. rewrite !app_length.
         destruct (c_lsda_enc c), (c_pers c) as [[? ?]|], (negb (c_fde_enc c =? 0)); cbn [length]; lia. }
-      rewrite enc_uleb_small by exact Hsmall. unfold len, CfiSpec.blen. reflexivity.
-    - injection Haug as <-. reflexivity. }
+      split; [rewrite enc_uleb_small by exact Hsmall; unfold len, CfiSpec.blen; reflexivity|].
+      split; [exact Hsmall|].
+      assert (Hl : len (match c_lsda_enc c with Some e => [n2b e] | None => [] end) = N.of_nat (length (lsda_items c)))
+        by (unfold lsda_items; destruct (c_lsda_enc c); reflexivity).
+      rewrite Hl in Hpb.
+      destruct (c_pers c) as [[e a]|]; [|exact I].
+      destruct (addr_const_of_ptr _ _ _ _ _ _ Hpb) as (v & ->). exists v. split; [reflexivity|].
+      destruct (write_eh_pointer_enc be _ v e _ pb ltac:(cbn [addr_wf] in Hpa; exact Hpa) Hpb) as (_ & Happ & Hfv & Hfit1 & _).
+      auto.
+    - injection Haug as <-. destruct (no_aug_fields c Ea) as (E1 & E2 & E3 & E4).
+      split; [reflexivity|]. split.
+      + unfold aug_items_of, pers_items, lsda_items. rewrite E1, E2, E3, E4. cbn. lia.
+      + rewrite E2. exact I. }
+  destruct Haugp as (Haugp & Hsmall & Hpers).
   assert (Hbody : (PRE ++ augdata ++ insns) ++ pad = CfiSpec.cie_id sp (c_fmt64 c) ++ CfiSpec.cie_tail sp cr).
   { rewrite RdE.cie_tail_split, (HPRE dpos (insns ++ pad)), Haugp. fold cr.
     unfold cr at 3. cbn [cie_rec_of CfiSpec.c_instr]. repeat rewrite <- app_assoc. reflexivity. }
@@ -1252,8 +1289,11 @@ Proof.
   - rewrite Hbs, Eil, Hbody. unfold CfiSpec.enc_cie. cbv zeta.
     unfold cr at 3 4. cbn [cie_rec_of CfiSpec.c_fmt64]. unfold sp at 1 3, cie_sp. cbn [CfiSpec.s_be].
     unfold len, CfiSpec.blen. reflexivity.
-  - unfold RdE.cie_body. change (RdE.sp_of _) with sp. fold cr.
-    change (CfiSpec.c_fmt64 cr) with (c_fmt64 c). rewrite <- Hbody. exact Hbound.
+  - split.
+    + unfold RdE.cie_body. change (RdE.sp_of _) with sp. fold cr.
+      change (CfiSpec.c_fmt64 cr) with (c_fmt64 c). rewrite <- Hbody. exact Hbound.
+    + split; [exact Hsmall|]. split; [exact Hver|]. split; [|exact Hpers].
+      intros Hv1. rewrite Hv1 in Hrab. cbn [N.eqb Pos.eqb] in Hrab. destruct (c_ra c <? 256) eqn:E; [lia|discriminate].
 Qed.
 
 (* ---- the written FDE is CfiSpec.enc_fde of its translation ---- *)
@@ -1306,11 +1346,6 @@ Proof.
   unfold aug_items_of, pers_items, lsda_items. rewrite E1, E2, E3, E4. reflexivity.
 Qed.
 
-Lemma addr_const_of_write be a size bs : write_address be a size = Ok bs -> exists v, a = AConst v.
-Proof. destruct a; [eauto|discriminate]. Qed.
-Lemma addr_const_of_ptr be pos a e size bs : write_eh_pointer be pos a e size = Ok bs -> exists v, a = AConst v.
-Proof. destruct a; [eauto|discriminate]. Qed.
-
 Lemma fde_write_enc dbg be eh pos coff (c : CfiWr.cie) (f : CfiWr.fde) bs :
   cie_wf c = true -> fde_wf f = true -> pos + len bs < 18446744073709551616 -> coff <= pos ->
   fde_write dbg be eh pos coff c f = Ok bs ->
@@ -1334,7 +1369,11 @@ Lemma fde_write_enc dbg be eh pos coff (c : CfiWr.cie) (f : CfiWr.fde) bs :
     (exists v, f_addr f = AConst v) /\
     (forall la, f_lsda f = Some la -> exists v, la = AConst v) /\
     (if eh then pos + ilen_size (c_fmt64 c) - coff < 4294967296
-     else coff < (if c_fmt64 c then 18446744073709551616 else 4294967296)).
+     else coff < (if c_fmt64 c then 18446744073709551616 else 4294967296)) /\
+    (forall d ci idx,
+       CfiRd.nlen (RdE.fde_body (CfiRd.mkcfg eh be (c_asize c) (CfiRd.mksb (Some 0) None None))
+                                (cie_rec_of c d ci) coff pos (fde_rec_of be eh pos c f idx (insns ++ pad)))
+       < (if c_fmt64 c then 2 ^ 64 else 4294967280)).
 Proof.
   intros Hwf Hfwf Hfit Hcoff H.
   pose proof (fde_write_ok_asz _ _ _ _ _ _ _ _ H) as Hasz.
@@ -1436,21 +1475,163 @@ Proof.
       split; [reflexivity|]. split; [intros e He; discriminate|].
       intros la Hla. rewrite Hla in Hls. discriminate. }
   destruct Eaug as (Eaug & Hlenc & Hlconst).
+  assert (Hbody : forall d ci idx, (ptr ++ addrs ++ augdata ++ insns) ++ pad =
+                    CfiSpec.cie_pointer (cie_sp eh be c) (c_fmt64 c) (pos + CfiSpec.len_field_size (c_fmt64 c)) coff ++
+                    CfiSpec.fde_tail (cie_sp eh be c) (cie_rec_of c d ci) (fde_rec_of be eh pos c f idx (insns ++ pad))).
+  { intros d ci idx. unfold CfiSpec.fde_tail. cbv zeta. rewrite cie_asz_sp, has_aug_items. cbn [cie_rec_of CfiSpec.c_items].
+    rewrite find_R_items, find_L_items.
+    unfold fde_rec_of. cbn [CfiSpec.f_init CfiSpec.f_range CfiSpec.f_lsda CfiSpec.f_pad CfiSpec.f_instr].
+    unfold cie_sp at 2 3. cbn [CfiSpec.s_be].
+    change (CfiSpec.len_field_size (c_fmt64 c)) with (ilen_size (c_fmt64 c)). fold base.
+    rewrite Eptr, Eaddr, Eaug. unfold fde_afmt.
+    destruct (negb (c_fde_enc c =? 0)); rewrite ?fmt_of_pe; repeat rewrite <- app_assoc; reflexivity. }
   split.
   { intros d ci idx. rewrite Hbs, Eil. unfold CfiSpec.enc_fde. cbv zeta.
     unfold fde_rec_of at 1 2. cbn [CfiSpec.f_fmt64]. unfold cie_sp at 1 3. cbn [CfiSpec.s_be].
-    assert (Hbody : (ptr ++ addrs ++ augdata ++ insns) ++ pad =
-                    CfiSpec.cie_pointer (cie_sp eh be c) (c_fmt64 c) (pos + CfiSpec.len_field_size (c_fmt64 c)) coff ++
-                    CfiSpec.fde_tail (cie_sp eh be c) (cie_rec_of c d ci) (fde_rec_of be eh pos c f idx (insns ++ pad))).
-    { unfold CfiSpec.fde_tail. cbv zeta. rewrite cie_asz_sp, has_aug_items. cbn [cie_rec_of CfiSpec.c_items].
-      rewrite find_R_items, find_L_items.
-      unfold fde_rec_of. cbn [CfiSpec.f_init CfiSpec.f_range CfiSpec.f_lsda CfiSpec.f_pad CfiSpec.f_instr].
-      unfold cie_sp at 2 3. cbn [CfiSpec.s_be].
-      change (CfiSpec.len_field_size (c_fmt64 c)) with (ilen_size (c_fmt64 c)). fold base.
-      rewrite Eptr, Eaddr, Eaug. unfold fde_afmt.
-      destruct (negb (c_fde_enc c =? 0)); rewrite ?fmt_of_pe; repeat rewrite <- app_assoc; reflexivity. }
-    rewrite Hbody. unfold len, CfiSpec.blen. reflexivity. }
+    rewrite (Hbody d ci idx). unfold len, CfiSpec.blen. reflexivity. }
   split; [unfold lsda_ok; apply (proj2 (bool_eqb_iff _ _)); exact Hls|].
   split; [exact Hfenc|]. split; [exact Hnofenc|]. split; [exact Hlenc|]. split; [exact Hconst|]. split; [exact Hlconst|].
-  exact Hco.
+  split; [exact Hco|].
+  intros d ci idx. unfold RdE.fde_body. change (RdE.sp_of _) with (cie_sp eh be c).
+  cbn [fde_rec_of CfiSpec.f_fmt64]. rewrite <- (Hbody d ci idx). exact Hbound.
+Qed.
+
+(* ------------------------------------------------------------------ *)
+(* E. what CfiRd's parsers return on the written entries                *)
+(* ------------------------------------------------------------------ *)
+
+Module RdP := GV.Proofs.CfiRdPtr.
+
+(* the section as the harness reads it: loaded at address 0, no text/data bases *)
+Definition rd_cfg (eh be : bool) (asz : N) : CfiRd.scfg :=
+  CfiRd.mkcfg eh be asz (CfiRd.mksb (Some 0) None None).
+
+Lemma pe_bits e : e < 256 ->
+  CfiSpec.app_of e = CfiWr.pe_application e /\ CfiSpec.fmt_of e = CfiWr.pe_format e /\
+  (negb (CfiSpec.ind_of e =? 0)) = negb (N.land e 128 =? 0).
+Proof.
+  intros He.
+  assert (E : ((CfiSpec.app_of e =? CfiWr.pe_application e) && (CfiSpec.fmt_of e =? CfiWr.pe_format e)
+               && Bool.eqb (negb (CfiSpec.ind_of e =? 0)) (negb (N.land e 128 =? 0))) = true).
+  { apply (forall_lt (fun e => (CfiSpec.app_of e =? CfiWr.pe_application e) && (CfiSpec.fmt_of e =? CfiWr.pe_format e)
+               && Bool.eqb (negb (CfiSpec.ind_of e =? 0)) (negb (N.land e 128 =? 0))) 256); [vm_compute; reflexivity|exact He]. }
+  apply andb_true_iff in E. destruct E as [E E3]. apply andb_true_iff in E. destruct E as [E1 E2].
+  apply (proj1 (bool_eqb_iff _ _)) in E3. split; [lia|]. split; [lia|exact E3].
+Qed.
+
+(* an encoding the writer accepted for a pointer is a valid encoding for the reader, and not `omit` *)
+Lemma enc_accepted e :
+  e < 256 -> (CfiWr.pe_application e = 0 \/ CfiWr.pe_application e = 16) ->
+  CfiSpec.fmt_valid (CfiWr.pe_format e) = true ->
+  CfiSpec.valid_spec e = true /\ e <> 255.
+Proof.
+  intros He Happ Hfmt. destruct (pe_bits e He) as (Ha & Hf & _).
+  assert (Hne : e <> 255).
+  { intros ->. vm_compute in Happ. destruct Happ; discriminate. }
+  split; [|exact Hne]. unfold CfiSpec.valid_spec. rewrite Hf, Hfmt, Ha.
+  destruct Happ as [-> | ->]; cbn; rewrite orb_true_r; reflexivity.
+Qed.
+
+(* the pointer the LSB definition assigns to the value the writer encoded: the address, reduced to the
+   address size (section loaded at 0) *)
+Lemma ptr_spec_written e asz pos a func :
+  e < 256 -> (asz = 1 \/ asz = 2 \/ asz = 4 \/ asz = 8) ->
+  (CfiWr.pe_application e = 0 \/ CfiWr.pe_application e = 16) ->
+  a < 18446744073709551616 -> pos < 18446744073709551616 ->
+  CfiSpec.ptr_spec e asz (CfiSpec.mkpb (Some 0) None None func) pos (ptr_raw pos e a)
+  = Some (negb (N.land e 128 =? 0), a mod 2 ^ (8 * asz)).
+Proof.
+  intros He Hasz Happ Ha Hp. destruct (pe_bits e He) as (Hap & _ & Hind).
+  unfold CfiSpec.ptr_spec, CfiSpec.base_spec, ptr_raw. rewrite Hap, Hind. cbn [CfiSpec.b_section].
+  pose proof (pow8_cases asz Hasz) as Hm.
+  assert (Hmz : forall x y, Z.of_N x = Z.of_N y -> x = y) by (intros; lia).
+  destruct Happ as [E|E]; rewrite E; cbn [N.eqb Pos.eqb].
+  - rewrite N.add_0_l. reflexivity.
+  - f_equal. f_equal. rewrite N.add_0_l.
+    apply N2Z.inj. rewrite !N2Z.inj_mod, N2Z.inj_add, N2Z.inj_mod.
+    unfold wrap64, two64. rewrite (N.mod_small pos) by exact Hp.
+    assert (HW : exists q2, (Z.of_N ((18446744073709551616 + a - pos) mod 18446744073709551616)
+                             = Z.of_N a - Z.of_N pos + 18446744073709551616 * q2)%Z).
+    { destruct (pos <=? a) eqn:E'.
+      - exists 0%Z. replace (18446744073709551616 + a - pos) with ((a - pos) + 1 * 18446744073709551616) by lia.
+        rewrite N.mod_add by discriminate. rewrite N.mod_small by lia. lia.
+      - exists 1%Z. rewrite N.mod_small by lia. lia. }
+    destruct HW as [q2 HW]. rewrite HW.
+    destruct Hm as [->|[->|[->| ->]]]; lia.
+Qed.
+
+(* the augmentation the reader must report for a written CIE *)
+Definition rd_pers_of (c : CfiWr.cie) : option (N * CfiRd.pointer) :=
+  match c_pers c with
+  | Some (e, a) => Some (e, RdP.mkptr (negb (N.land e 128 =? 0)) (addr_val a mod 2 ^ (8 * c_asize c)))
+  | None => None
+  end.
+Definition rd_augm_of (c : CfiWr.cie) : CfiRd.augm :=
+  CfiRd.mkaug (c_lsda_enc c) (rd_pers_of c) (if negb (c_fde_enc c =? 0) then Some (c_fde_enc c) else None) (c_sig c).
+Definition rd_aug_of (c : CfiWr.cie) : option CfiRd.augm :=
+  if has_augmentation c then Some (rd_augm_of c) else None.
+
+Definition enc_usable (e : N) : Prop :=
+  e < 256 /\ (CfiWr.pe_application e = 0 \/ CfiWr.pe_application e = 16) /\ CfiSpec.fmt_valid (CfiWr.pe_format e) = true.
+
+Lemma enc_usable_valid e : enc_usable e -> ((e <? 256) && CfiSpec.valid_spec e) = true /\ e <> 255.
+Proof.
+  intros (He & Ha & Hf). destruct (enc_accepted e He Ha Hf) as [Hv Hn]. rewrite Hv. split; [|exact Hn].
+  apply andb_true_iff. split; [lia|reflexivity].
+Qed.
+
+Lemma aug_fold_written be (c : CfiWr.cie) (dpos : N) :
+  (c_asize c = 1 \/ c_asize c = 2 \/ c_asize c = 4 \/ c_asize c = 8) ->
+  dpos + 2 < 18446744073709551616 ->
+  (forall e, c_lsda_enc c = Some e -> enc_usable e) ->
+  (negb (c_fde_enc c =? 0) = true -> enc_usable (c_fde_enc c)) ->
+  match c_pers c with
+  | Some (e, a) => exists v, a = AConst v /\ v < 18446744073709551616 /\ enc_usable e /\
+      CfiSpec.value_fits (CfiWr.pe_format e) (c_asize c)
+        (ptr_raw (dpos + N.of_nat (length (lsda_items c)) + 1) e v) = true
+  | None => True
+  end ->
+  RdE.aug_fold (c_asize c) be (CfiRd.mksb (Some 0) None None) (aug_items_of c dpos) dpos CfiRd.aug_default
+  = Some (rd_augm_of c).
+Proof.
+  intros Hasz Hpos HL HR HP. unfold aug_items_of, rd_augm_of, rd_pers_of.
+  (* tail: R and S *)
+  assert (T2 : forall pos a,
+    RdE.aug_fold (c_asize c) be (CfiRd.mksb (Some 0) None None)
+      ((if negb (c_fde_enc c =? 0) then [CfiSpec.AR (c_fde_enc c)] else []) ++ (if c_sig c then [CfiSpec.AS] else []))
+      pos a
+    = Some (CfiRd.mkaug (CfiRd.a_lsda a) (CfiRd.a_pers a)
+              (if negb (c_fde_enc c =? 0) then Some (c_fde_enc c) else CfiRd.a_fde_enc a)
+              (if c_sig c then true else CfiRd.a_sig a))).
+  { intros pos a. destruct (negb (c_fde_enc c =? 0)) eqn:Ef.
+    - destruct (enc_usable_valid _ (HR eq_refl)) as [Hv _]. cbn [app RdE.aug_fold]. rewrite Hv.
+      destruct (c_sig c); cbn [app RdE.aug_fold]; destruct a; reflexivity.
+    - destruct (c_sig c); cbn [app RdE.aug_fold]; destruct a; reflexivity. }
+  (* middle: P *)
+  assert (T1 : forall l0,
+    RdE.aug_fold (c_asize c) be (CfiRd.mksb (Some 0) None None)
+      (pers_items c dpos ++ (if negb (c_fde_enc c =? 0) then [CfiSpec.AR (c_fde_enc c)] else [])
+                         ++ (if c_sig c then [CfiSpec.AS] else []))
+      (dpos + N.of_nat (length (lsda_items c))) (CfiRd.mkaug l0 None None false)
+    = Some (CfiRd.mkaug l0
+              (match c_pers c with
+               | Some (e, a) => Some (e, RdP.mkptr (negb (N.land e 128 =? 0)) (addr_val a mod 2 ^ (8 * c_asize c)))
+               | None => None end)
+              (if negb (c_fde_enc c =? 0) then Some (c_fde_enc c) else None) (c_sig c))).
+  { intros l0. unfold pers_items. destruct (c_pers c) as [[e a]|].
+    - destruct HP as (v & -> & Hv & He & Hfit).
+      destruct (enc_usable_valid e He) as [Hval Hne]. destruct He as (He & Happ & Hfmt).
+      cbn [app RdE.aug_fold]. rewrite Hval. replace (e =? 255) with false by lia. cbn [negb andb].
+      rewrite fmt_of_pe, Hfit. cbn [CfiRd.sb_section CfiRd.sb_text CfiRd.sb_data].
+      rewrite (ptr_spec_written e (c_asize c) _ v None He Hasz Happ Hv) by (unfold lsda_items; destruct (c_lsda_enc c); cbn [length]; lia).
+      rewrite T2. cbn [RdE.set_pers CfiRd.a_lsda CfiRd.a_pers CfiRd.a_fde_enc CfiRd.a_sig addr_val].
+      destruct (negb (c_fde_enc c =? 0)); destruct (c_sig c); reflexivity.
+    - cbn [app]. rewrite T2. cbn [CfiRd.a_lsda CfiRd.a_pers CfiRd.a_fde_enc CfiRd.a_sig].
+      destruct (negb (c_fde_enc c =? 0)); destruct (c_sig c); reflexivity. }
+  unfold lsda_items in *. destruct (c_lsda_enc c) as [e|] eqn:El.
+  - destruct (enc_usable_valid e (HL e eq_refl)) as [Hv _].
+    cbn [app RdE.aug_fold]. rewrite Hv. cbn [RdE.set_lsda CfiRd.aug_default CfiRd.a_pers CfiRd.a_fde_enc CfiRd.a_sig].
+    specialize (T1 (Some e)). cbn [length] in T1. change (N.of_nat 1) with 1 in T1. exact T1.
+  - cbn [app]. specialize (T1 None). cbn [length] in T1. change (N.of_nat 0) with 0 in T1. rewrite N.add_0_r in T1.
+    exact T1.
 Qed.
